@@ -647,7 +647,9 @@ main(void)
 		if (strcmp(hc_tok[0], "case") == 0) {
 			case_reset();
 			printf("case %s", hc_ntok > 1 ? hc_tok[1] : "");
-		} else if (strcmp(hc_tok[0], "tag") == 0) {
+		} else if (strcmp(hc_tok[0], "tag") == 0 || strcmp(hc_tok[0], "wfb") == 0 ||
+		    strcmp(hc_tok[0], "wff") == 0) {
+			/* annotations for the model side (the response as a value) */
 			printf("ok");
 		} else if (hc_is("srv", 1)) {
 			b = hc_unhex(hc_tok[1], &n);
